@@ -221,8 +221,25 @@ structure Lookup where
   rules : List Rule
   deriving DecidableEq, Repr
 
+/-- Python `str.replace(pat, rep)` on a character list (pat non-empty): the leftmost, non-overlapping occurrences are replaced;
+    `skip` counts the characters of a matched occurrence that are still to be dropped -/
+def replaceChars (pat rep : List Char) : Nat → List Char → List Char
+  | _, [] => []
+  | skip + 1, _ :: t => replaceChars pat rep skip t
+  | 0, c :: t =>
+    if pat.isPrefixOf (c :: t) then rep ++ replaceChars pat rep (pat.length - 1) t else c :: replaceChars pat rep 0 t
+
+/-- Python `sep.join(parts)` on character lists -/
+def joinChars (sep : List Char) : List (List Char) → List Char
+  | [] => []
+  | [a] => a
+  | a :: b :: r => a ++ sep ++ joinChars sep (b :: r)
+
+/-- `f"kern_{'_'.join(scripts)}{suffix}".replace(COMMON_SCRIPT, COMMON_CLASS_NAME)`, written over explicit character lists (the
+    core `String.replace` / `String.intercalate` are opaque to proof; the emitted strings are the same) -/
 def lookupName (scripts : List String) (suffix : String) : String :=
-  ("kern_" ++ "_".intercalate scripts ++ suffix).replace COMMON "Default"
+  String.ofList (replaceChars COMMON.toList "Default".toList 0
+    ("kern_".toList ++ joinChars ['_'] (scripts.map String.toList) ++ suffix.toList))
 
 def makeRules (c : Ctx) (scripts : List String) (pairs : List KPair) : List Rule :=
   pairs.filterMap (fun p =>
